@@ -152,8 +152,8 @@ NumParts(body) == LET sg == IF body[1] = 45 THEN -1 ELSE 1
                       ip == IF dot = 0 THEN ds ELSE SubSeq(ds, 1, dot - 1)
                       fp == IF dot = 0 THEN <<>> ELSE SubSeq(ds, dot + 1, Len(ds))
                   IN [s |-> sg, digits |-> ip \o fp, frac |-> Len(fp)]
-DenoteDecimal(s) == LET r == DecFromStr(Tail(s)) IN        \* the library's reader (Decimal.tla): exact, scale included
-                    IF r.k = "invalid" THEN DFail ELSE [ok |-> TRUE, v |-> VDec(r.n, r.sc), exact |-> TRUE]
+DenoteDecimal(s) == LET r == DecFromStr(Tail(s)) IN        \* the library's reader (Decimal.tla): scale included; inexact when digits were dropped
+                    IF r.k = "invalid" THEN DFail ELSE [ok |-> TRUE, v |-> VDec(r.n, r.sc), exact |-> r.exact]
 DenoteFloat(s) ==
   LET body == Tail(s)
       ei == IF \E i \in 1..Len(body) : body[i] = 101 \/ body[i] = 69
